@@ -78,6 +78,13 @@ class SoftmaxLikelihood(Likelihood):
         res = base_distributions.Categorical(logits=mixed_fs)
         return res
 
+    def _draw_likelihood_samples(self, function_dist: Distribution, *args: Any, **kwargs: Any) -> Distribution:
+        # expected_log_prob / log_marginal / marginal get here without passing through __call__:
+        # a (deprecated) batch MultivariateNormal is converted the same way, so that forward sees num_data x num_features
+        if not isinstance(function_dist, MultitaskMultivariateNormal):
+            function_dist = MultitaskMultivariateNormal.from_batch_mvn(function_dist)
+        return super()._draw_likelihood_samples(function_dist, *args, **kwargs)
+
     def __call__(self, input: Union[Tensor, MultitaskMultivariateNormal], *args: Any, **kwargs: Any) -> Distribution:
         if isinstance(input, Distribution) and not isinstance(input, MultitaskMultivariateNormal):
             warnings.warn(
